@@ -504,6 +504,14 @@ def check_C09(res, scratch, tier, seed):
         elif t["status"] != "ok":
             raise Infra("TLC MCCache %s: %s\n%s" % (tag, t["status"], t["tail"][-2500:]))
         res.add_tlc(t)
+    # --- (D) static lookahead pruning as a machine in lock-step with the unpruned one (Look.tla): same transitions, same verdict
+    t = run_tlc(scratch, "MCLook", "SPECIFICATION LSpec\nCONSTANTS\n  GrammarsC <- CuratedL\n  TermsC = {1, 2, 3}\n  MaxPl = %d\nINVARIANTS LookSound\nCHECK_DEADLOCK FALSE\n"
+                % (10 if tier == "quick" else 13), "look", timeout=3000)
+    if t["status"] == "violation":
+        res.violation("spec-invariant:LookSound", {"tlc_tail": t["tail"][-3000:]})
+    elif t["status"] != "ok":
+        raise Infra("TLC MCLook: %s\n%s" % (t["status"], t["tail"][-2500:]))
+    res.add_tlc(t)
     # --- the sets reused from the cache and their fresh re-computations are valid Earley sets (EarleyTrace.tla)
     earley_trace_part(res, scratch, tier, seed + 1, builds, ("C09",), kinds=("curated", "random", "random_err", "random_trans"))
     # --- TLC validates the groups
